@@ -70,6 +70,21 @@ func (o *imObj) apply(s Step) Step {
 		delete(o.its, s.Int("i"))
 		o.open--
 		got["i"] = s.Int("i")
+	case "NextN": // n calls of Next in a row, summarised
+		n, oks := s.Int("n"), 0
+		var e iterable.MapEntry[string, int]
+		ok := false
+		for j := 0; j < n; j++ {
+			if e, ok = o.its[s.Int("i")].Next(); ok {
+				oks++
+			}
+		}
+		got["i"], got["n"], got["oks"], got["ok"] = s.Int("i"), n, oks, ok
+		if ok {
+			got["k"], got["v"] = e.Key, e.Value
+		} else {
+			got["k"], got["v"] = "", 0
+		}
 	case "Drop": // forget the iterator without closing it
 		delete(o.its, s.Int("i"))
 		got["i"] = s.Int("i")
@@ -172,6 +187,9 @@ func driveIterMap(opt *Options) error {
 		driveIterMapManyIters(tw, rnd, v)
 	}
 	driveIterMapCycles(tw, rnd)
+	for _, total := range []int{255, 256, 257, 65535, 65536, 65537} {
+		driveIterMapWrap(tw, total)
+	}
 	storms := 12
 	if opt.N > 200 {
 		storms = 100
@@ -350,6 +368,46 @@ func driveIterMapManyIters(tw *TraceWriter, rnd *rand.Rand, variant int) {
 	do := func(s Step) bool { return imDo(tw, o, &nextID, s) }
 	key := func(i int) string { return fmt.Sprintf("m%d", i) }
 	n := 34 + rnd.Intn(60)
+	if variant == 2 {
+		// hundreds of removed entries in a row, each still held by an iterator of its own (iterator i is advanced
+		// i-1 times in one go: a NextN line)
+		n = 260 + rnd.Intn(12)
+		for i := 0; i < n; i++ {
+			do(Step{"op": "Add", "k": key(i), "v": nextID})
+		}
+		for it := 1; it <= n; it++ {
+			do(Step{"op": "Iterator", "i": it})
+			if it > 1 && !do(Step{"op": "NextN", "i": it, "n": it - 1}) {
+				return
+			}
+		}
+		for i := 0; i < n; i++ {
+			if !do(Step{"op": "Remove", "k": key(i)}) {
+				return
+			}
+		}
+		// the map is empty: no iterator has anything left
+		for _, it := range []int{1, 2, n / 2, n - 1, n} {
+			do(Step{"op": "HasNext", "i": it})
+			do(Step{"op": "Next", "i": it})
+		}
+		do(Step{"op": "Len"})
+		do(Step{"op": "First"})
+		do(Step{"op": "Add", "k": key(n), "v": nextID})
+		for _, it := range []int{1, 2, n / 2, n} {
+			do(Step{"op": "HasNext", "i": it})
+			do(Step{"op": "Next", "i": it})
+			do(Step{"op": "Next", "i": it})
+		}
+		for it := 1; it <= n; it++ {
+			if !do(Step{"op": "Close", "i": it}) {
+				return
+			}
+		}
+		do(Step{"op": "First"})
+		do(Step{"op": "Len"})
+		return
+	}
 	for i := 0; i < n; i++ {
 		do(Step{"op": "Add", "k": key(i), "v": nextID})
 	}
@@ -403,9 +461,9 @@ func driveIterMapManyIters(tw *TraceWriter, rnd *rand.Rand, variant int) {
 			do(Step{"op": "Close", "i": it})
 		}
 	}
-	do(Step{"op": "Iterator", "i": 100})
+	do(Step{"op": "Iterator", "i": 300})
 	for j := 0; j < m+3; j++ {
-		do(Step{"op": "Next", "i": 100})
+		do(Step{"op": "Next", "i": 300})
 	}
 	do(Step{"op": "Add", "k": key(n + m), "v": nextID})
 	for it := 1; it <= n; it++ {
@@ -414,8 +472,8 @@ func driveIterMapManyIters(tw *TraceWriter, rnd *rand.Rand, variant int) {
 			do(Step{"op": "Close", "i": it})
 		}
 	}
-	do(Step{"op": "Next", "i": 100})
-	do(Step{"op": "Close", "i": 100})
+	do(Step{"op": "Next", "i": 300})
+	do(Step{"op": "Close", "i": 300})
 	do(Step{"op": "First"})
 }
 
@@ -551,4 +609,39 @@ func driveIterMapCycles(tw *TraceWriter, rnd *rand.Rand) {
 		do(Step{"op": "Next", "i": 2})
 	}
 	do(Step{"op": "Close", "i": 2})
+}
+
+// driveIterMapWrap: HasNext says there is an entry; the entry is removed; then the map goes through a precise number
+// of further changes (add / remove of another key - unobservable, hence not logged) so that the TOTAL number of changes
+// since HasNext is `total`; then Next.  Whatever the implementation counts, a count that happens to come round
+// (2^8, 2^16) must not make it miss the removal.
+func driveIterMapWrap(tw *TraceWriter, total int) {
+	o := newImObj()
+	tw.Emit(map[string]any{"op": "New"})
+	nextID := 1
+	do := func(s Step) bool { return imDo(tw, o, &nextID, s) }
+	do(Step{"op": "Add", "k": "a", "v": nextID})
+	do(Step{"op": "Add", "k": "b", "v": nextID})
+	do(Step{"op": "Iterator", "i": 1})
+	do(Step{"op": "HasNext", "i": 1})
+	do(Step{"op": "Remove", "k": "a"}) // change 1
+	changes := 1
+	p, pv := callPanics(func() {
+		for ; changes+2 <= total; changes += 2 {
+			o.m.Add("w", 0)
+			o.m.Remove("w")
+		}
+	})
+	if p {
+		tw.Emit(map[string]any{"op": "Add", "crash": firstLine(fmt.Sprint(pv))})
+		return
+	}
+	if changes < total { // an odd one out: a logged Add that stays
+		do(Step{"op": "Add", "k": "c", "v": nextID})
+	}
+	do(Step{"op": "Next", "i": 1})
+	do(Step{"op": "Next", "i": 1})
+	do(Step{"op": "Next", "i": 1})
+	do(Step{"op": "Close", "i": 1})
+	do(Step{"op": "Len"})
 }
